@@ -104,6 +104,28 @@ def stepC02 (fields : List String) : Option String :=
         encodeList (Spec.plantedInfo ls).con ++ "|" ++
         -- the hypothesis `hfit` of C02_file_exact
         encodeBool (decide ((encodeUtf8 (Spec.infoTextOf ls)).length ≤ 4096) || containsSnippet (encodeUtf8 (Spec.infoTextOf ls))))
+  | ["c02blocks", a0, hidden, visible, open_, kinds, pres, blanks, vs, trails, keys, yforms] => do
+      -- do the hypotheses of C02_extract_exact_with_blocks / C02_file_exact_with_blocks hold?  The text is
+      -- a0 S hidden[0] E visible[0] S hidden[1] E visible[1] … (S open_)?; the lines are those of the visible parts glued
+      -- together.  Answer: hypotheses | the theorem's text | what the theorem says is extracted | file hypotheses
+      let a0 ← decodeText a0
+      let hidden ← decodeList hidden
+      let visible ← decodeList visible
+      let o ← match open_.splitOn ":" with
+        | ["none"] => some none
+        | ["some", x] => (decodeText x).map some
+        | _ => none
+      if hidden.length != visible.length then none
+      else
+        let bs := hidden.zip visible
+        let ls ← infoLinesOf kinds.toList (← decodeList pres) (← decodeList blanks) (← decodeList vs) (← decodeList trails)
+          (keys.splitOn ";") (yforms.splitOn ";")
+        let t := Spec.blocksText a0 bs o
+        pure (encodeBool (ls.all (·.ok Generated.endRe) && Spec.chunksOK a0 bs o && Spec.visibleText a0 bs == Spec.infoTextOf ls) ++
+          "|" ++ encodeText t ++ "|" ++
+          encodeList (Spec.plantedInfo ls).lic ++ "|" ++ encodeList (Spec.plantedInfo ls).cpr ++ "|" ++
+          encodeList (Spec.plantedInfo ls).con ++ "|" ++
+          encodeBool (!t.contains '\r' && (decide ((encodeUtf8 t).length ≤ 4096) || containsSnippet (encodeUtf8 t))))
   | ["decode", bs] => do pure (encodeText (decodedText (← decodeBytes bs)))
   | ["windowlen", bs] => do pure (toString (window (← decodeBytes bs)).length)
   | ["infofile", bs, bad] => do
